@@ -1,3 +1,6 @@
 import GoSup.Model.Port
 import GoSup.Spec.C20
 import GoSup.Props.C20
+import GoSup.Model.Middleware
+import GoSup.Spec.C15
+import GoSup.Props.C15
